@@ -310,6 +310,39 @@ pub fn c09(ctx: &mut Ctx) {
             }
         }
     }
+    // difficulties above 32 bits cannot be ground inside a check: a committed table of solutions
+    // (produced once with `swsim grind-pow`, each re-validated here by the reference model) covers
+    // the part of the admitted range 20..=50 in which a 32-bit shortcut would stop working
+    if ctx.mine(0) {
+        ctx.stats.declare_probe("pow.pre-ground-solution-above-32-bits");
+        let table: Value = serde_json::from_str(include_str!("../../pow_solutions.json")).unwrap_or_else(|e| ctx.harness_error(&format!("pow_solutions.json: {e}")));
+        for e in table["solutions"].as_array().cloned().unwrap_or_default() {
+            if e["hash"].as_str() != Some(models::pow_hash_kind()) {
+                continue;
+            }
+            let (Some(digest_f), Some(n_bits), Some(nonce)) = (e["digest"].as_str().and_then(|h| Felt::from_hex(h).ok()), e["n_bits"].as_u64(), e["nonce"].as_u64()) else {
+                ctx.harness_error(&format!("pow_solutions.json: malformed entry {e}"))
+            };
+            let digest = digest_f.to_bytes_be();
+            if !models::pow_valid(&digest, n_bits as u8, nonce) {
+                ctx.harness_error(&format!("pow_solutions.json: entry {e} is not a solution under the reference model"));
+            }
+            if n_bits > 32 {
+                ctx.stats.probe("pow.pre-ground-solution-above-32-bits");
+            }
+            // the solution itself, and its neighbours in nonce and difficulty (model decides)
+            for (nb, nn) in [(n_bits as u8, nonce), (n_bits as u8, nonce ^ 1), (n_bits as u8 + 1, nonce), (n_bits as u8 - 1, nonce)] {
+                let want = models::pow_valid(&digest, nb, nn);
+                let o = real_pow(digest, nb, nn);
+                ctx.stats.evaluations += 1;
+                ctx.stats.state(format!("pre-ground|bits{}|{}|{}", nb / 16, if want { "valid" } else { "invalid" }, o.class()));
+                if o.is_accept() != want {
+                    let rep = replay_envelope("C09", scenario, &ctx.variant, json!({"call": "pow_verify", "digest": hexf(&digest_f), "n_bits": nb, "nonce": nn, "expect": if want { "ok" } else { "not_ok" }, "expected_outcome": o.describe()}));
+                    ctx.violation(&format!("C09|verdict|{}", if want { "valid-rejected" } else { "invalid-accepted" }), &format!("verify_pow(digest={}, n_bits={nb}, nonce={nn}) = {} but the reference model says {}", hexf(&digest_f), o.class(), if want { "valid" } else { "invalid" }), rep);
+                }
+            }
+        }
+    }
     let n_inst: u64 = if ctx.is_quick() { 4_000 } else { 60_000 };
     let max_grind = if ctx.is_quick() { 16 } else { 21 };
     for k in 1..=n_inst {
